@@ -1,11 +1,12 @@
 (* C15 - Close releases goroutines and callbacks; pooled buffers have one owner.
    Statements only; every proof is `exact <lemma of PoolProofs / ExitProofs>`.
 
-   Buffer part (Pool.v): `Pool.run (init c) ops = (s, tr)` is the core state and the chronological
-   event trace after ANY operation sequence `ops` (Send / Recv / Input with arbitrary ACK, UNA,
-   PUSH segments - genuine or forged - / flush with any admission count / Put of re-sliced views)
-   for ANY configuration (mss, stream or message mode, receive window).  `frun finit ds` is the
-   same for the FEC decoder and its caller under any sequence of decode outcomes.
+   Buffer part (Pool.v): `Pool.run (init c) ops = (s, tr)` is the core state and the
+   chronological event trace after ANY operation sequence `ops` (Send / Recv / Input with
+   arbitrary ACK, UNA, PUSH segments - genuine or forged - / flush with any admission count /
+   Put of re-sliced views) for ANY configuration (mss, stream or message mode, receive window).
+   `frun finit ds` is the same for the FEC decoder and its caller under any sequence of decode
+   outcomes.
    Exit part (Exit.v): `reach cap s0 s` is any state reachable from a freshly dialled client
    session or a fresh listener under ANY interleaving of application calls, network events and
    goroutine / callback steps, for any capacity of the post-processing channel. *)
@@ -33,14 +34,14 @@ Theorem c15_single_owner :
   forall c ops s tr, Pool.run (init c) ops = (s, tr) ->
   forall i, (cnt i (holders s) <= 1)%nat /\
             (cnt i (holders s) = 1%nat <-> (In (EGet i) tr /\ ~ In (EPut i) tr)).
-Proof. intros c ops s tr H. apply Inv_reach in H. destruct H as [J _]. exact (J_single_owner _ _ _ J). Qed.
+Proof. exact thm_single_owner. Qed.
 Print Assumptions c15_single_owner.
 
 (* No acquisition is recycled twice. *)
 Theorem c15_put_once :
   forall c ops s tr, Pool.run (init c) ops = (s, tr) ->
   forall a b i, tr = a ++ EPut i :: b -> ~ In (EPut i) a /\ ~ In (EPut i) b.
-Proof. intros c ops s tr H. apply Inv_reach in H. destruct H as [J _]. exact (J_put_once _ _ _ J). Qed.
+Proof. exact thm_put_once. Qed.
 Print Assumptions c15_put_once.
 
 (* After its Put an acquisition is never read, written, or Put again (nor handed out again:
@@ -48,7 +49,7 @@ Print Assumptions c15_put_once.
 Theorem c15_no_use_after_put :
   forall c ops s tr, Pool.run (init c) ops = (s, tr) ->
   forall a b i, tr = a ++ EPut i :: b -> forall e, In e b -> ev_id e <> i.
-Proof. intros c ops s tr H. apply Inv_reach in H. destruct H as [J _]. exact (J_no_use_after_put _ _ _ J). Qed.
+Proof. exact thm_no_use_after_put. Qed.
 Print Assumptions c15_no_use_after_put.
 
 (* Every read / write / Put happens between the Get of that acquisition and its Put; every Get
@@ -60,7 +61,7 @@ Theorem c15_use_only_while_owned :
     | EGet i => forall e', In e' a -> ev_id e' <> i
     | EPut i | ERd i | EWr i => In (EGet i) a /\ ~ In (EPut i) a
     end.
-Proof. intros c ops s tr H. apply Inv_reach in H. destruct H as [J _]. exact (J_lifecycle _ _ _ J). Qed.
+Proof. exact thm_use_only_while_owned. Qed.
 Print Assumptions c15_use_only_while_owned.
 
 (* bufferPool.Put accepts exactly the slices of capacity mtuLimit: a view that starts inside a
@@ -69,16 +70,9 @@ Print Assumptions c15_use_only_while_owned.
 Theorem c15_pool_accepts_full_only :
   (forall off i, slice_cap off = c_mtuLimit -> pool_put off i = [EPut i]) /\
   (forall off i, slice_cap off <> c_mtuLimit -> pool_put off i = []) /\
-  (forall off i, off <> 0%Z -> pool_put off i = []) /\
-  (forall s i off, off <> 0%Z -> Pool.step s (OPutView i off) = (s, 0%Z, [])).
-Proof.
-  split; [| split; [| split]].
-  - intros off i H. unfold pool_put. rewrite H, Z.eqb_refl. reflexivity.
-  - intros off i H. unfold pool_put. destruct (Z.eqb_spec (slice_cap off) c_mtuLimit); [contradiction | reflexivity].
-  - exact pool_put_resliced.
-  - intros s i off H. simpl. destruct (Z.eqb_spec off 0); [contradiction|].
-    rewrite pool_put_resliced by assumption. reflexivity.
-Qed.
+  (forall off i, off <> 0 -> pool_put off i = []) /\
+  (forall s i off, off <> 0 -> Pool.step s (OPutView i off) = (s, 0, [])).
+Proof. exact thm_pool_accepts_full_only. Qed.
 Print Assumptions c15_pool_accepts_full_only.
 
 (* ---------------------------------------------------------------- buffers: FEC decoder *)
@@ -86,99 +80,84 @@ Theorem c15_fec_single_owner :
   forall ds s tr, frun finit ds = (s, tr) ->
   forall i, (cnt i (fholders s) <= 1)%nat /\
             (cnt i (fholders s) = 1%nat <-> (In (EGet i) tr /\ ~ In (EPut i) tr)).
-Proof. intros ds s tr H. apply FInv_reach in H. exact (J_single_owner _ _ _ H). Qed.
+Proof. exact thm_fec_single_owner. Qed.
 Print Assumptions c15_fec_single_owner.
 
 Theorem c15_fec_put_once :
   forall ds s tr, frun finit ds = (s, tr) ->
   forall a b i, tr = a ++ EPut i :: b -> ~ In (EPut i) a /\ ~ In (EPut i) b.
-Proof. intros ds s tr H. apply FInv_reach in H. exact (J_put_once _ _ _ H). Qed.
+Proof. exact thm_fec_put_once. Qed.
 Print Assumptions c15_fec_put_once.
 
 Theorem c15_fec_no_use_after_put :
   forall ds s tr, frun finit ds = (s, tr) ->
   forall a b i, tr = a ++ EPut i :: b -> forall e, In e b -> ev_id e <> i.
-Proof. intros ds s tr H. apply FInv_reach in H. exact (J_no_use_after_put _ _ _ H). Qed.
+Proof. exact thm_fec_no_use_after_put. Qed.
 Print Assumptions c15_fec_no_use_after_put.
 
 (* ---------------------------------------------------------------- examples (non-vacuity) *)
 (* message mode, mss 100, window 4: send 250 bytes (3 fragments), admit 3, receive an ACK for
    sn 1 (buffer recycled, segment stays), then UNA = 3 (the two remaining buffers recycled, the
-   already-recycled one is not Put again), a PUSH sn 0 (new), the same PUSH again (duplicate, no
-   acquisition), a PUSH outside the window, a Put of a re-sliced view of a held buffer, and Recv. *)
-Definition ex_ops : list op :=
-  [OSend 250; OFlush 3;
-   OInput [mkIseg c_IKCP_CMD_ACK 0 1 0 0] 0;
-   OInput [mkIseg c_IKCP_CMD_PUSH 0 0 3 40] 0;
-   OInput [mkIseg c_IKCP_CMD_PUSH 0 0 3 40; mkIseg c_IKCP_CMD_PUSH 0 9 3 40] 0;
-   OPutView 3 6;
-   ORecv 1000].
-
+   already-recycled one is not Put again) with a PUSH sn 0 (new), the same PUSH again (duplicate,
+   no acquisition), a PUSH outside the window, a Put of a re-sliced view of a held buffer, Recv. *)
 Example c15_example_trace :
-  snd (Pool.run (init (mkCfg 100 false 4)) ex_ops) =
+  snd (Pool.run (init (mkCfg 100 false 4 0 0)) ex_ops) =
   [EGet 0; EWr 0; EGet 1; EWr 1; EGet 2; EWr 2;      (* Send: one buffer per fragment *)
    ERd 0; ERd 1; ERd 2;                              (* flush transmits the three segments *)
    EPut 1; ERd 0; ERd 2;                             (* ACK sn=1: recycled, segment stays; flush skips it *)
    EPut 0; EPut 2; EGet 3; EWr 3;                    (* UNA=3: only the non-nil data; PUSH sn=0: fresh copy *)
-   ERd 3; EPut 3]%Z                                  (* (duplicate, out-of-window, re-sliced Put: nothing); Recv *)
-  /\ holders (fst (Pool.run (init (mkCfg 100 false 4)) ex_ops)) = [].
-Proof. vm_compute. split; reflexivity. Qed.
+   ERd 3; EPut 3]                                    (* (duplicate, out-of-window, re-sliced Put: nothing); Recv *)
+  /\ holders (fst (Pool.run (init (mkCfg 100 false 4 0 0)) ex_ops)) = [].
+Proof. exact ex_trace. Qed.
 
 (* stream mode: the second Send is absorbed in place by the last queued segment (same buffer) *)
 Example c15_example_stream :
-  snd (Pool.run (init (mkCfg 100 true 4)) [OSend 30; OSend 50; OSend 90]) =
-  [EGet 0; EWr 0; EWr 0; EWr 0; EGet 1; EWr 1]%Z.
-Proof. vm_compute. reflexivity. Qed.
+  snd (Pool.run (init (mkCfg 100 true 4 0 0)) [OSend 30; OSend 50; OSend 90]) =
+  [EGet 0; EWr 0; EWr 0; EWr 0; EGet 1; EWr 1].
+Proof. exact ex_stream. Qed.
 
 (* FEC: two packets parked, the third completes a group that needs recovery of 2 shards:
-   success hands the 2 fresh buffers to the caller, who reads and recycles them; failure returns them. *)
+   success hands the 2 fresh buffers to the caller, who reads and recycles them; failure returns
+   them at once; a group that became too old is discarded (its packet recycled). *)
 Example c15_example_fec :
   snd (frun finit [FAccept 0 RKeep []; FAccept 0 RKeep []; FAccept 0 (RRecover 2 true) []]) =
   [EGet 0; EWr 0; EGet 1; EWr 1; EGet 2; EWr 2;
    ERd 0; ERd 1; ERd 2; EWr 0; EWr 1; EWr 2; EGet 3; EGet 4; ERd 0; ERd 1; ERd 2; EWr 3; EWr 4;
-   EPut 0; EPut 1; EPut 2; ERd 3; EPut 3; ERd 4; EPut 4]%Z
-  /\ snd (frun finit [FAccept 0 RKeep []; FAccept 0 (RRecover 1 false) []; FAccept 7 RKeep [7%Z]]) =
+   EPut 0; EPut 1; EPut 2; ERd 3; EPut 3; ERd 4; EPut 4]
+  /\ snd (frun finit [FAccept 0 RKeep []; FAccept 0 (RRecover 1 false) []; FAccept 7 RKeep [7]]) =
   [EGet 0; EWr 0; EGet 1; EWr 1; ERd 0; ERd 1; EWr 0; EWr 1; EGet 2; ERd 0; ERd 1; EWr 2;
-   EPut 2; EPut 0; EPut 1; EGet 3; EWr 3; EPut 3]%Z.
-Proof. vm_compute. split; reflexivity. Qed.
+   EPut 2; EPut 0; EPut 1; EGet 3; EWr 3; EPut 3].
+Proof. exact ex_fec. Qed.
 
 Local Close Scope Z_scope.
 (* ---------------------------------------------------------------- goroutines and callbacks *)
+(* s0 ranges over the four ways the library starts: a dialled client (owning its socket or
+   not) and a listener (owning its socket or not). *)
+
 (* postProcess: from every reachable state in which s.die is closed, postProcess - wherever it
    is, whatever is queued, whatever was or is being enqueued - has a path of its OWN steps to
    its return (so it is never blocked), draining the channel on the way. *)
 Theorem c15_postprocess_exits :
-  forall cap s0 s, (s0 = init_client true \/ s0 = init_client false \/ s0 = init_served true \/ s0 = init_served false) ->
+  forall cap s0 s, is_start s0 ->
   reach cap s0 s -> die s = true -> (pp s = PPSel \/ pp s = PPBlk) ->
   exists t, star cap is_pp s t /\ pp t = PPDone /\ q t = 0.
-Proof.
-  intros cap s0 s H. apply postprocess_exits.
-  destruct H as [-> | [-> | [-> | ->]]]; (apply good_client || apply good_served).
-Qed.
+Proof. exact thm_postprocess_exits. Qed.
 Print Assumptions c15_postprocess_exits.
 
 (* update: at most one callback of a session is pending or running, always; once die is closed a
    firing callback neither flushes nor re-submits, the chain drains within two steps, and
    afterwards no step of anybody re-arms it. *)
 Theorem c15_update_stops :
-  forall cap s0 s, (s0 = init_client true \/ s0 = init_client false \/ s0 = init_served true \/ s0 = init_served false) ->
+  forall cap s0 s, is_start s0 ->
   reach cap s0 s ->
-  pend s + b2n (run s) <= 1 /\
+  pend s + b2n (Exit.run s) <= 1 /\
   (die s = true ->
-     (forall l t, step cap s l t -> is_upd l = true ->
-        (l = U_fire_dead /\ S (pend t) = pend s /\ run t = run s) \/ (l = U_resubmit /\ run s = true)) /\
-     (exists t, star cap is_upd s t /\ pend t = 0 /\ run t = false /\ die t = true /\ pp t = pp s)) /\
-  (die s = true -> pp s <> PPNone -> pend s = 0 -> run s = false ->
-     forall l t, step cap s l t -> die t = true /\ pp t <> PPNone /\ pend t = 0 /\ run t = false).
-Proof.
-  intros cap s0 s H R.
-  assert (G0 : Good s0) by (destruct H as [-> | [-> | [-> | ->]]]; (apply good_client || apply good_served)).
-  split; [exact (proj1 (proj2 (good_reach _ _ _ G0 R))) | split].
-  - intro Hd. split.
-    + intros l t St Hu. eapply update_fire_dead_only; eauto.
-    + eapply update_drains; eauto.
-  - intros Hd Hp Hq Hr l t St. eapply update_stopped_stable; eauto.
-Qed.
+     (forall l t, Exit.step cap s l t -> is_upd l = true ->
+        (l = U_fire_dead /\ S (pend t) = pend s /\ Exit.run t = Exit.run s) \/ (l = U_resubmit /\ Exit.run s = true)) /\
+     (exists t, star cap is_upd s t /\ pend t = 0 /\ Exit.run t = false /\ die t = true /\ pp t = pp s)) /\
+  (die s = true -> pp s <> PPNone -> pend s = 0 -> Exit.run s = false ->
+     forall l t, Exit.step cap s l t -> die t = true /\ pp t <> PPNone /\ pend t = 0 /\ Exit.run t = false).
+Proof. exact thm_update_stops. Qed.
 Print Assumptions c15_update_stops.
 
 (* readLoop / monitor: with the session closed AND the transport closed, readLoop returns
@@ -188,67 +167,43 @@ Theorem c15_readloop_exits :
   forall cap,
   (forall s, die s = true -> sock s = true -> (rl s = RLRead \/ rl s = RLGot \/ rl s = RLIn) ->
      exists t, star cap is_rl s t /\ rl t = RLDone) /\
-  (forall s, die s = true -> rl s = RLGot -> exists t, step cap s RL_closed t /\ rl t = RLDone) /\
+  (forall s, die s = true -> rl s = RLGot -> exists t, Exit.step cap s RL_closed t /\ rl t = RLDone) /\
   (forall s, reach cap (init_client true) s -> die s = true -> sock s = true) /\
   (forall s, reach cap (init_served true) s -> ldie s = true -> sock s = true) /\
   (forall o s, reach cap (init_served o) s -> sock s = true -> (mon s = MRead \/ mon s = MGot) ->
      exists t, star cap is_mon s t /\ mon t = MDone).
-Proof.
-  intro cap. split; [| split; [| split; [| split]]].
-  - apply readloop_exits.
-  - apply readloop_exits_on_packet.
-  - apply client_close_closes_socket.
-  - apply listener_close_closes_socket.
-  - intros o s R. eapply monitor_exits; [apply good_served | exact R].
-Qed.
+Proof. exact thm_readloop_exits. Qed.
 Print Assumptions c15_readloop_exits.
 
 (* The hypothesis "transport closed" is needed: a closed session on a socket it does not own
    keeps its readLoop blocked in ReadFrom - no readLoop step is enabled - until a packet arrives
    or the transport is closed (the property says "and the transport"). *)
 Theorem c15_readloop_needs_transport :
-  forall cap s l t, rl s = RLRead -> sock s = false -> step cap s l t -> is_rl l = false.
+  forall cap s l t, rl s = RLRead -> sock s = false -> Exit.step cap s l t -> is_rl l = false.
 Proof. exact readloop_blocked_without_transport. Qed.
 Print Assumptions c15_readloop_needs_transport.
 
 (* The full statement "closing sessions, listener and transport terminates every goroutine and
-   callback the library started" is REFUTED by the faithful model for sessions that are still in
-   the listener's accept backlog (DESIGN F14): connect, do not accept, close the listener (it
-   owns and closes the socket; the monitor returns).  The application holds no handle on the
-   session; from then on, whatever happens short of a further successful Accept, the session's
-   die stays open, its postProcess stays at its select and exactly one update callback stays
-   pending or running, for ever.  With a socket the listener does not own, the monitor moreover
-   creates such sessions AFTER Listener.Close. *)
-Definition c15_all_exit_full : Prop :=
-  forall cap o s, reach cap (init_served o) s -> ldie s = true -> sock s = true ->
-    (wh s = WHeld -> die s = true) ->          (* everything the application can reach is closed *)
-    exists t, star cap (fun l => negb (is_env l)) s t /\
-              (pp t = PPDone \/ pp t = PPNone) /\ pend t = 0 /\ run t = false /\ mon t = MDone.
+   callback the library started" (all_exit_full: from every state of a served session in which
+   listener and transport are closed and every session the application holds is closed, library
+   steps alone reach "postProcess returned, no update pending or running, monitor returned") is
+   REFUTED by the faithful model for sessions still in the listener's accept backlog (DESIGN
+   F14): connect, do not accept, close the listener (it owns and closes the socket; the monitor
+   returns).  The application holds no handle on the session; from then on, whatever happens
+   short of a further successful Accept, the session's die stays open, its postProcess stays at
+   its select and exactly one update callback stays pending or running, for ever.  With a socket
+   the listener does not own, the monitor moreover creates such sessions AFTER Listener.Close. *)
+Definition c15_all_exit_full : Prop := all_exit_full.
 
 Theorem c15_backlog_leak_refuted :
   (exists s, (forall cap, reach cap (init_served true) s) /\
      ldie s = true /\ sock s = true /\ mon s = MDone /\ wh s = WBacklog /\
      forall cap t, star cap not_accept s t ->
-       die t = false /\ pp t = PPSel /\ wh t = WBacklog /\ pend t + b2n (run t) = 1) /\
+       die t = false /\ pp t = PPSel /\ wh t = WBacklog /\ pend t + b2n (Exit.run t) = 1) /\
   (exists s, (forall cap, reach cap (init_served false) s) /\ ldie s = true /\
-     forall cap, exists t, step cap s M_dispatch_new t /\ wh t = WBacklog /\ pp t = PPSel /\ pend t = 1) /\
+     forall cap, exists t, Exit.step cap s M_dispatch_new t /\ wh t = WBacklog /\ pp t = PPSel /\ pend t = 1) /\
   ~ c15_all_exit_full.
-Proof.
-  split; [| split].
-  - exists leak_state. split; [intro; apply leak_reachable|].
-    split; [reflexivity|]. split; [reflexivity|]. split; [reflexivity|]. split; [reflexivity|].
-    intros cap t St. assert (L0 : Leaked leak_state) by (repeat split; reflexivity).
-    destruct (leaked_forever cap _ _ L0 St) as [L1 [L2 [L3 [_ L5]]]]. auto.
-  - exists closed_listening. split; [intro; apply (proj1 (dispatch_after_close cap))|].
-    split; [reflexivity|]. intro cap. apply (proj2 (proj2 (dispatch_after_close cap))).
-  - intro F. destruct (F 1 true leak_state (leak_reachable 1) eq_refl eq_refl) as [t [St [Hp _]]].
-    { simpl. discriminate. }
-    assert (L0 : Leaked leak_state) by (repeat split; reflexivity).
-    assert (St' : star 1 not_accept leak_state t).
-    { clear Hp. induction St; [apply star_refl|]. eapply star_step; [eassumption | | assumption].
-      destruct l; simpl in *; try reflexivity; discriminate. }
-    destruct (leaked_forever 1 _ _ L0 St') as [_ [L2 _]]. rewrite L2 in Hp. destruct Hp; discriminate.
-Qed.
+Proof. exact thm_backlog_leak_refuted. Qed.
 Print Assumptions c15_backlog_leak_refuted.
 
 (* Example: a dialled client with traffic queued is closed; postProcess drains and returns, the
@@ -257,17 +212,4 @@ Example c15_exit_example :
   let s := mkS true true false 2 PPSel 1 false RLRead MNone WHeld true in
   reach 8 (init_client true) s /\
   star 8 (fun l => negb (is_env l)) s (mkS true true false 0 PPDone 0 false RLDone MNone WHeld true).
-Proof.
-  split.
-  - eapply reach_step; [eapply reach_step; [eapply reach_step; [apply reach_init|] |] |].
-    + apply s_enqueue_ok; [discriminate | repeat constructor].
-    + apply s_enqueue_ok; [discriminate | repeat constructor].
-    + apply (s_close_sess 8 false false false 2 PPSel 1 false RLRead MNone true).
-  - eapply star_step; [apply s_pp_die_more | reflexivity |].
-    eapply star_step; [apply s_pp_consume_blk | reflexivity |].
-    eapply star_step; [apply s_pp_consume | reflexivity |].
-    eapply star_step; [apply s_pp_die_exit | reflexivity |].
-    eapply star_step; [apply s_u_fire_dead | reflexivity |].
-    eapply star_step; [apply s_rl_err | reflexivity |].
-    apply star_refl.
-Qed.
+Proof. exact ex_exit. Qed.
